@@ -1,6 +1,8 @@
 //! zsim — deterministic simulation with fault injection for KillingSpark/zstd-rs (see /verif/DESIGN.md).
 
 mod c06;
+mod c10;
+mod c11;
 mod content;
 mod driver;
 mod rng;
@@ -35,6 +37,14 @@ macro_rules! with_engine {
                 let $e = c06::DecodeSim { mode: c06::Mode::C08 };
                 $body
             }
+            "C11" => {
+                let $e = c11::C11::new();
+                $body
+            }
+            "C10" => {
+                let $e = c10::C10::new();
+                $body
+            }
             other => {
                 eprintln!("unknown property {other}");
                 std::process::exit(2)
@@ -43,7 +53,7 @@ macro_rules! with_engine {
     };
 }
 
-pub const ALL_ENGINES: &[&str] = &["C06", "C08"];
+pub const ALL_ENGINES: &[&str] = &["C06", "C08", "C10", "C11"];
 
 fn do_replay<E: Engine>(engine: &E, path: &Path) -> i32 {
     match runner::replay(engine, path) {
